@@ -244,3 +244,11 @@ Theorem logql_log_correct :
     log_correct2 re_match parse_float json_get hash_labels tie q c d.
 Proof. exact logql_log_correct_proof. Qed.
 Print Assumptions logql_log_correct.
+
+(* the fuel of the transcribed lexer / recursive descent never decides: with more fuel the answers are the same, so a `None`
+   of re_plan is a byte without a lexer rule or a grammar error (what the Go parser reports), never an exhausted fuel *)
+Theorem regexp_grammar_fuel_irrelevant :
+  (forall f re, (String.length re <= f)%nat -> lex f re = lex_re re)
+  /\ (forall f ts, (List.length ts < f)%nat -> parts f ts = parts (S (List.length ts)) ts).
+Proof. exact grammar_fuel_irrelevant. Qed.
+Print Assumptions regexp_grammar_fuel_irrelevant.
